@@ -96,7 +96,7 @@ def impl_violates(c, r):
     known = None
     for i, it in enumerate(its):
         below = (it['min'] is not None and it['min'] < it['pb']) or (it['max'] is not None and it['max'] < it['pb'])
-        if below and abs(size[i] - it['pb']) <= 1e-3 * scale:
+        if below:
             known = 'pb-floor'
     for i, it in enumerate(its):
         if fac[i] == 0.0:
@@ -146,12 +146,12 @@ def run(rep, tier, seed, replay=None):
         n = 5000
     oracle_replay = None
     if replay and 'case' in replay:
-        rc, out = vh(binp, ['c07', 'one'] + replay['case'])
+        rc, out = vh(binp, ['c07', 'one'] + replay['case'], timeout=60)
     elif replay and 'oracle' in replay:
         oracle_replay = replay['oracle']
-        rc, out = vh(binp, ['c07', 'cases', seed, 0])
+        rc, out = vh(binp, ['c07', 'cases', seed, 0], timeout=120)
     else:
-        rc, out = vh(binp, ['c07', 'cases', seed, n])
+        rc, out = vh(binp, ['c07', 'cases', seed, n], timeout=300)
     try:
         cases, impl = parse_cr(out)
     except RuntimeError as ex:
@@ -159,6 +159,15 @@ def run(rep, tier, seed, replay=None):
     if rc != 0 or not cases:
         rep.add_broken('correspondence', 'vh c07 cases', 'harness failed: ' + out[-500:])
         cases, impl = [], []
+    # a case on which the implementation did not return (watchdog in the harness): a failure of its own
+    hung = [c for c, a in zip(cases, impl) if a == [-2]]
+    for c in hung[:1]:
+        rep.add_violation('K case %s: the layout does not terminate (no result within the harness watchdog period): '
+                          'resolve_flexible_lengths must exit after at most #items + 1 rounds (C07_loop_terminates)' % shape(c),
+                          {'case': c, 'cmd': 'vh c07 one ' + ' '.join(str(x) for x in c)})
+        rep.add_broken('correspondence', 'vh c07 cases', 'implementation hangs on case %s' % c)
+    pairs = [(c, a) for c, a in zip(cases, impl) if a != [-2]]
+    cases, impl = [p[0] for p in pairs], [p[1] for p in pairs]
     bad = []
     if cases:
         try:
@@ -196,17 +205,17 @@ def run(rep, tier, seed, replay=None):
                                           'loc_i + size_i + margin_end_i + margin_start_j + gap <= loc_j (mirrored for *-reverse)'})
     rep.cov['samples'].append({'theorem': 'C07_loop_terminates : forall items gap M (any XQ values), resolve_flexible_lengths items gap M <> None'})
     # ---------------------------------------------------------------- known findings: the refutation witnesses must still fail on the implementation
-    rc, out = vh(binp, ['c07', 'one'] + PBFLOOR_WITNESS)
+    rc, out = vh(binp, ['c07', 'one'] + PBFLOOR_WITNESS, timeout=60)
     try:
         wc, wr = parse_cr(out)
-        v = impl_violates(wc[0], wr[0])
+        v = impl_violates(wc[0], wr[0]) if wr[0] != [-2] else ('hang', None)
     except Exception:
         v = None
     if v and v[1] == 'pb-floor':
         rep.known.append('F-C07-pbfloor reproduced: %s | %s' % (v[0], FINDINGS[0]['line']))
     else:
         rep.cov['stale_finding_pbfloor'] = 'witness of C07_exhausted_laid_out_sizes_refuted no longer fails on the implementation: %r' % (v,)
-    rc, out = vh(binp, ['c07', 'probe'])
+    rc, out = vh(binp, ['c07', 'probe'], timeout=60)
     m = re.search(r'b\.x=([0-9.eE+-]+)', out)
     if m and float(m.group(1)) < 80.0 - 1e-3:
         rep.known.append('F-C07-autogap reproduced: second item at %s, not 80 | %s' % (m.group(1), FINDINGS[1]['line']))
